@@ -56,7 +56,7 @@ class C12(Check):
                    'explicit list whose entry at the lens\'s primary index is the primary wavelength)']
 
     def budget(self, tier):
-        return (150, 8) if tier == 'quick' else (900, 16)
+        return (250, 8) if tier == 'quick' else (1200, 16)
 
     def strategy(self, tier):
         return st.fixed_dictionaries(dict(spec=GL.lens_spec(IMG, min_surfs=2), analysis=st.sampled_from(ANALYSES),
@@ -252,6 +252,20 @@ class C12(Check):
         out.expect('encircled_one_curve_per_field', len(lines) == len(F), got=len(lines), want=len(F))
         for i, ln in enumerate(lines[:len(F)]):
             y = np.asarray(ln.get_ydata(), dtype=float)
+            xr_ = np.asarray(ln.get_xdata(), dtype=float)
+            # the whole curve: energy of the rays within radius r of the spot centroid (rays at r within 1e-9 may fall on
+            # either side)
+            rr_ = trace_pts(tw, F[i][0], F[i][1], px, py, w)
+            xi, yi, ei = rr_['x'][-1], rr_['y'][-1], rr_['intensity'][-1]
+            rad = np.hypot(xi - np.mean(xi), yi - np.mean(yi))
+            tol_r = 1e-9 * max(float(np.nanmax(rad)), 1e-12 * self.Lsc)
+            lo = np.array([np.nansum(ei[rad <= r_ - tol_r]) for r_ in xr_])
+            hi = np.array([np.nansum(ei[rad <= r_ + tol_r]) for r_ in xr_])
+            out.expect('encircled_energy_is_energy_within_radius',
+                       np.all((y >= lo - 1e-12 * (1 + hi)) & (y <= hi + 1e-12 * (1 + hi))), field=i,
+                       worst=float(np.max(np.maximum(lo - y, y - hi))))
+            if len(set(np.round(ei[np.isfinite(ei)], 12))) > 1:
+                out.cls('encircled_with_unequal_ray_energies')
             out.expect('encircled_energy_non_decreasing', np.all(np.diff(y) >= -1e-12), field=i)
             out.close('encircled_energy_reaches_total', float(y[-1]), tot[i], rtol=1e-12, atol=1e-12, field=i)
             out.expect('encircled_energy_starts_at_or_above_zero', y[0] >= 0, field=i)
@@ -575,6 +589,29 @@ class C12(Check):
             r2 = np.concatenate([(a - mx) ** 2 + (b - my) ** 2 for a, b in zip(xs, ys)])
             out.close('rms_spot_size_operand_all', float(RO.rms_spot_size(o, k, hx, hy, rings, 'all')),
                       math.sqrt(float(np.mean(r2))), rtol=1e-10, atol=1e-13 * self.Lsc)
+        # a non-default pupil distribution, single wavelength and 'all'
+        from optiland.distribution import create_distribution
+        dname = ['uniform', 'cross', 'ring', 'line_y'][case['n'] % 4]
+        npts = 4 + case['n'] % 5
+        dd = create_distribution(dname)
+        dd.generate_points(npts)
+        dx_, dy_ = np.array(dd.x, dtype=float), np.array(dd.y, dtype=float)
+        if len(dx_) >= 2:
+            xs, ys = [], []
+            for ww in lens_w:
+                t = trace_pts(tw, hx, hy, dx_, dy_, ww)
+                xs.append(t['x'][k])
+                ys.append(t['y'][k])
+            if all(np.all(np.isfinite(v)) for v in xs):
+                j = list(lens_w).index(w) if w in list(lens_w) else None
+                if j is not None:
+                    wantd = math.sqrt(float(np.mean((xs[j] - np.mean(xs[j])) ** 2 + (ys[j] - np.mean(ys[j])) ** 2)))
+                    out.close('rms_spot_size_operand', float(RO.rms_spot_size(o, k, hx, hy, npts, w, dname)), wantd,
+                              rtol=1e-10, atol=1e-13 * self.Lsc, distribution=dname)
+                mx, my = np.mean(xs[pi]), np.mean(ys[pi])
+                r2 = np.concatenate([(a - mx) ** 2 + (b - my) ** 2 for a, b in zip(xs, ys)])
+                out.close('rms_spot_size_operand_all', float(RO.rms_spot_size(o, k, hx, hy, npts, 'all', dname)),
+                          math.sqrt(float(np.mean(r2))), rtol=1e-10, atol=1e-13 * self.Lsc, distribution=dname)
 
 
 CHECK = C12()
